@@ -79,8 +79,10 @@ func (c *Controller) handleEvent(evt config.Event) {
 	case *config.SvcConfigEvent:
 		c.handleSvcConfigUpdate(evt.Name, evt.Config)
 	case *config.SvcEndpointEvent:
-		c.handleSvcEndpointsAdd(evt.Name, evt.Added)
+		// NOTE: keep the order of the config store, an endpoint which is in
+		// both lists is removed and then added again.
 		c.handleSvcEndpointsRemove(evt.Name, evt.Removed)
+		c.handleSvcEndpointsAdd(evt.Name, evt.Added)
 	default:
 		logger.Warnf("unkown event: %v", evt)
 	}
